@@ -38,6 +38,7 @@ class Ref:
         self.faults = faults or {}
         self.selected = []  # (dataset-id, tag) chosen at every dataset evaluation
         self.unselected = []  # spec nodes of alternatives that were decided against (C06 laziness oracle)
+        self.unused_factories = set()  # default factories of options whose key was present
         self.substitutes = {}  # dataset id -> constant (C18 substitution oracle)
 
     # -- helpers ----------------------------------------------------------
@@ -69,6 +70,8 @@ class Ref:
         if raw is not U.ABSENT:
             if s.get("dk") == "spec":
                 self.unselected.append(s["dv"])  # the default of a present option
+            elif s.get("dk") == "factory":
+                self.unused_factories.add(_pid(s, "fac", s["key"]))
             try:
                 value = U.substitute(raw, o)
             except U.MissingKey as e:
